@@ -63,6 +63,40 @@ def split(rng, n):
 
 # ------------------------------------------------------------------------------- Python node
 
+NP_PRIM = {"bool": "bool_", "int8": "int8", "uint8": "uint8", "int16": "int16", "uint16": "uint16", "int32": "int32", "uint32": "uint32", "int64": "int64",
+           "uint64": "uint64", "size": "uint64", "float32": "float32", "float64": "float64", "complexfloat32": "complex64", "complexfloat64": "complex128"}
+
+
+def as_numpy_items(model, t, chunk):
+    """The items of a stream as one 1-D numpy array (numbers: the matching dtype; records of fixed-size fields: the
+    structured dtype the generated package itself reports through get_dtype), or None if the item type has no such form."""
+    import numpy as np
+    if not chunk:
+        return None
+    res = model.env.resolve(M.qualify(t, model.pkg.namespace))
+    try:
+        if isinstance(res, M.Prim) and res.name in NP_PRIM:
+            return np.array(chunk, dtype=getattr(np, NP_PRIM[res.name]))
+        if isinstance(res, tuple) and res[0] == "record" and not res[1].params:
+            def fixed(rt):
+                r2 = model.env.resolve(rt)
+                if isinstance(r2, M.Prim):
+                    return r2.name in NP_PRIM
+                if isinstance(r2, tuple) and r2[0] == "record":
+                    return all(fixed(ft) for _, ft in model.env.record_fields(r2))
+                return False
+            if not all(fixed(ft) for _, ft in model.env.record_fields(res)):
+                return None
+            dt = model.mod.get_dtype(type(chunk[0]))
+
+            def tup(o):
+                return tuple(tup(a) for a in vars(o).values()) if hasattr(o, "__dict__") else o
+            return np.array([tup(o) for o in chunk], dtype=dt)
+    except Exception:  # noqa  (no array form after all)
+        return None
+    return None
+
+
 def py_write_history(model, proto, pyvals, rng, fmt):
     """Write pyvals with a seeded grouping. Returns (bytes|text, error, description)."""
     sink = P.SimSink() if fmt == "binary" else io.StringIO()
@@ -88,8 +122,12 @@ def py_write_history(model, proto, pyvals, rng, fmt):
                 chunk = items[k:k + g]
                 k += g
                 # the API takes any Iterable[T]: sized ones (list, tuple, deque, dict views) and one-shot ones (generator, iterator, map)
-                how = rng.choice(["list", "gen", "tuple", "list", "gen", "tuple", "deque", "dictvalues", "iter", "map"])
-                desc.append("%s:%s%d" % (name, how[:2] if how in ("deque", "dictvalues", "iter", "map") else how[0], g))
+                how = rng.choice(["list", "gen", "tuple", "list", "gen", "tuple", "deque", "dictvalues", "iter", "map", "nparray", "nparray"])
+                # (binary only: that numpy records and scalars can stand in for the Python objects is a feature of the binary serializers)
+                arr = as_numpy_items(model, t, chunk) if (how == "nparray" and fmt == "binary") else None
+                if how == "nparray" and arr is None:
+                    how = "list"
+                desc.append("%s:%s%d" % (name, how[:2] if how in ("deque", "dictvalues", "iter", "map", "nparray") else how[0], g))
                 if how == "list":
                     meths[i](list(chunk))
                 elif how == "gen":
@@ -103,6 +141,8 @@ def py_write_history(model, proto, pyvals, rng, fmt):
                     meths[i](iter(list(chunk)))
                 elif how == "map":
                     meths[i](map(lambda x: x, chunk))
+                elif how == "nparray":
+                    meths[i](arr)
                 else:
                     meths[i](tuple(chunk))
         w.close()
@@ -163,7 +203,7 @@ def py_side(model, proto, rng, quick, stats, viols, ctx):
             for tok in desc.split():
                 kind = tok.split(":")[1].rstrip("0123456789")
                 key = {"l": "list_path", "g": "generator_path", "t": "tuple_path", "de": "sized_iterable_path(deque, dict view)", "di": "sized_iterable_path(deque, dict view)",
-                       "it": "one_shot_iterator_path(iter, map)", "ma": "one_shot_iterator_path(iter, map)"}[kind]
+                       "it": "one_shot_iterator_path(iter, map)", "ma": "one_shot_iterator_path(iter, map)", "np": "numpy_array_as_iterable"}[kind]
                 stats[key] = stats.get(key, 0) + 1
                 if tok.endswith("0"):
                     stats["empty_write_call"] = stats.get("empty_write_call", 0) + 1
@@ -368,6 +408,13 @@ def model_task(task, ybin, root):
     pkg.files[fn0].append(M.Record("SteerGenO", ("T",), [("tag", M.Prim("int32")), ("payload", M.TParam("T"))]))
     first.steps.append(("steergeno", M.Named("SteerGenO", (rng.choice([M.Opt(M.Prim("int32")), M.Opt(M.Prim("string")),
                                                                    M.Union((("int32", M.Prim("int32")), ("string", M.Prim("string"))), nullable=True)]),)), True))
+    # items that are records of fixed-size fields (with and without padding in an aligned layout) and plain numbers: the
+    # shapes for which the Python API also takes one numpy array as the iterable
+    pkg.files[fn0].append(M.Record("SteerPodPad", (), [("id", M.Prim("uint8")), ("v", M.Prim("float64"))]))
+    pkg.files[fn0].append(M.Record("SteerPodFlat", (), [("a", M.Prim("float32")), ("b", M.Prim("float32"))]))
+    first.steps.append(("steerpodpad", M.Named("SteerPodPad"), True))
+    first.steps.append(("steerpodflat", M.Named("SteerPodFlat"), True))
+    first.steps.append(("steernum", M.Prim(rng.choice(["float32", "int16", "uint64", "float64"])), True))
     # items that are numeric arrays: the readers may hand out views of their staging buffer
     first.steps.append(("steerarr", M.Arr(M.Prim(rng.choice(["float32", "int16", "float64", "complexfloat32"])), rng.choice([None, 1, 2, ((None, 3),)])), True))
     model = P.PyModel(pkg, ybin, root, want_cpp=want_cpp, cpp_opts=C.CPP_OPTS)
@@ -479,7 +526,7 @@ def main():
                stubbed="C++: nd-array header (cpp.overrideArrayHeader) and date/date.h are verification stubs; harness main emitted from the generated protocols.h",
                assumptions=["reference codec per docs/reference, with int8/uint8 as one raw byte"],
                replay_fn=replay_doc, quick_budget=150,
-               fault_keys=("value_straddles_refill", "empty_write_call", "generator_path", "list_path", "tuple_path", "sized_iterable_path(deque, dict view)", "one_shot_iterator_path(iter, map)", "block_end_on_buffer_boundary", "cpp_relay", "cpp_script", "cpp_ndjson_relay", "cpp_ndjson_script", "py_write_histories"))
+               fault_keys=("value_straddles_refill", "empty_write_call", "generator_path", "list_path", "tuple_path", "sized_iterable_path(deque, dict view)", "one_shot_iterator_path(iter, map)", "numpy_array_as_iterable", "block_end_on_buffer_boundary", "cpp_relay", "cpp_script", "cpp_ndjson_relay", "cpp_ndjson_script", "py_write_histories"))
 
 
 if __name__ == "__main__":
